@@ -1396,6 +1396,36 @@ func sameSliceValue(a, b ssa.Value) bool {
 	return ca != nil && ca == cb
 }
 
+// isPumpMetrics: the *prom.Metrics parameter of processAttack, also as seen from a function literal
+// that captures it.
+func isPumpMetrics(v ssa.Value) bool {
+	if ld, ok := isLoad(v); ok {
+		v = ld.X
+	}
+	switch x := v.(type) {
+	case *ssa.Parameter:
+		return isNamedType(x.Type(), "lib/prom", "Metrics")
+	case *ssa.FreeVar:
+		b := bindingOf(x)
+		if p, isP := b.(*ssa.Parameter); isP {
+			return isNamedType(p.Type(), "lib/prom", "Metrics")
+		}
+		if al, isAl := b.(*ssa.Alloc); isAl {
+			n, good := 0, 0
+			for _, r := range refs(al) {
+				if st, isSt := r.(*ssa.Store); isSt && st.Addr == ssa.Value(al) {
+					n++
+					if p, isP := st.Val.(*ssa.Parameter); isP && isNamedType(p.Type(), "lib/prom", "Metrics") {
+						good++
+					}
+				}
+			}
+			return n == 1 && good == 1
+		}
+	}
+	return false
+}
+
 func c02Pump(c *Ctx) {
 	withoutInline(func() { c02PumpIn(c) })
 }
@@ -1500,6 +1530,12 @@ func c02PumpIn(c *Ctx) {
 				return
 			}
 			h := call.Call.StaticCallee()
+			if h == nil && !call.Call.IsInvoke() {
+				// a function literal held in a local (`record := func(r *Result) error {…}`)
+				if g := closureOf(resolveOnceV(call.Call.Value)); g != nil && g.Parent() == fn {
+					h = g
+				}
+			}
 			if h == nil || h.Pkg != fn.Pkg || len(h.Blocks) == 0 {
 				return
 			}
@@ -1534,7 +1570,7 @@ func c02PumpIn(c *Ctx) {
 	var pmIf *ssa.If
 	eachInstr(ctxFn, func(i ssa.Instruction) {
 		if bo, ok := i.(*ssa.BinOp); ok && bo.Op == token.NEQ {
-			if p, ok := bo.X.(*ssa.Parameter); ok && isNamedType(p.Type(), "lib/prom", "Metrics") {
+			if isPumpMetrics(bo.X) {
 				if k, ok := bo.Y.(*ssa.Const); ok && k.Value == nil {
 					pmIf = trueImpliesIf(bo)
 				}
